@@ -588,6 +588,62 @@ def r13_strip_macro_rules(body):
     return _apply(s, res), log
 
 
+def r18_debug_chain(body):
+    """R18: `F.debug_struct(NAME).field(N1, A1)....field(Nk, Ak).finish()`  ->
+    `{ let __dbg1 = A1; ... let __dbgk = Ak; verif_debug_finish(F) }`.
+    The argument expressions are still evaluated, in order, so whatever can panic inside them (indexing, slicing, unwrap)
+    remains an obligation; the builder calls themselves — core::fmt::DebugStruct::{field, finish} and the Debug impls they
+    invoke on the already evaluated values — are replaced by an assumed-total function with an arbitrary fmt::Result
+    (TRUSTED debug_builders_total)."""
+    log = []
+    s = body
+    while True:
+        ms = list(_code_find(s, re.compile(r'\b([A-Za-z_]\w*)\s*\.\s*debug_struct\s*\(')))
+        if not ms:
+            break
+        m = ms[0]
+        po = m.end() - 1
+        k = match_delim(s, po) + 1
+        args = []
+        while True:
+            k = _skip_ws(s, k)
+            mf = re.compile(r'\.\s*(field|finish)\s*\(').match(s, k)
+            if not mf:
+                raise RuleError('R18: debug_struct chain is not .field(..)*.finish()')
+            po2 = mf.end() - 1
+            pc2 = match_delim(s, po2)
+            if mf.group(1) == 'finish':
+                if s[po2 + 1:pc2].strip():
+                    raise RuleError('R18: finish() with arguments')
+                k = pc2 + 1
+                break
+            inner = s[po2 + 1:pc2]
+            # split at the first top-level comma
+            d = 0
+            cut = None
+            for kind, a, b in tokens(inner):
+                if kind != 'punct':
+                    continue
+                c = inner[a]
+                if c in '([{':
+                    d += 1
+                elif c in ')]}':
+                    d -= 1
+                elif c == ',' and d == 0:
+                    cut = a
+                    break
+            if cut is None:
+                raise RuleError('R18: field() without two arguments')
+            args.append(norm_ws(inner[cut + 1:]))
+            k = pc2 + 1
+        rep = '{ ' + ' '.join('let __dbg%d = %s;' % (n + 1, a) for n, a in enumerate(args)) + ' verif_debug_finish(%s) }' % m.group(1)
+        s = s[:m.start()] + rep + s[k:]
+        log.append('R18: debug_struct chain with %d fields -> argument evaluations + verif_debug_finish(%s)' % (len(args), m.group(1)))
+    if not log:
+        raise RuleError('R18: no debug_struct chain in the body')
+    return s, log
+
+
 def ptr_model(body, arr, elem, names):
     """R17: raw pointers into ONE array, modelled as element indices.
 
@@ -737,6 +793,9 @@ SELFTEST = [
     (lambda b: ptr_model(b, 'self.0.ctx', 'Ctx', ['bh', 'r0', 'r1', 'nx']),
      '{ let bh = self.0.ctx.as_mut_ptr(); let mut r0 = bh.add(self.0.s); let mut r1 = bh.add(self.0.e); let mut bh: *mut Ctx; let mut nx: *mut Ctx; bh = r0; loop { nx = bh.add(1); (*bh).h.update(ch); (*nx).v = (*bh).v; r1 = r1.add(1); bh = nx; if bh >= r1 { break; } } }',
      ['{ let bh = 0usize; let mut r0 = verif_ptr_add(bh, self.0.s, self.0.ctx.len()); let mut r1 = verif_ptr_add(bh, self.0.e, self.0.ctx.len()); let mut bh: usize; let mut nx: usize; bh = r0; loop { nx = verif_ptr_add(bh, 1, self.0.ctx.len()); self.0.ctx[bh].h.update(ch); self.0.ctx[nx].v = self.0.ctx[bh].v; r1 = verif_ptr_add(r1, 1, self.0.ctx.len()); bh = nx; if bh >= r1 { break; } } }']),
+    (r18_debug_chain,
+     '{ if v { f.debug_struct("X").field("a", &Self::A).field("s", &core::str::from_utf8(&b[..n as usize]).unwrap()).finish() } else { f.debug_struct("X").field("i", &true).finish() } }',
+     ['{ if v { { let __dbg1 = &Self::A; let __dbg2 = &core::str::from_utf8(&b[..n as usize]).unwrap(); verif_debug_finish(f) } } else { { let __dbg1 = &true; verif_debug_finish(f) } } }']),
     (lambda b: r_for_loops(b),
      '{ for ch in [ch; 1] { g(ch); continue; } }',
      ['let mut __it1: usize = 0; while __it1 < 1 {let ch = ch; __it1 += 1; g(ch); continue; }']),
